@@ -29,6 +29,12 @@ CHECKS = {
  "C11": dict(cat="model_checking", tech="lock-step comparison with std::io::Cursor for every stream length and every seek target; complete boundary-history tree",
     text="Layer stacks built as mlar info builds them (raw with offset 0/5, +encrypt, +compress, +both) over streams from the real layer writers and an independent AES-GCM chunk encoder (plus the encryption layer of real archives); for EVERY plaintext length 0..296 and EVERY target in [0,len]: seek from start / end / current, stream_position, then read to end, compared step by step with a Cursor; plus the complete depth-2 (thorough 3) tree over boundary targets, read sizes and stream_position for 18 boundary lengths.",
     note="Only targets inside [0,len]; short reads accepted. Scaled constants.", ref="3/C11"),
+ "C12": dict(cat="model_checking", tech="exhaustive enumeration of archives x name subsets x sink schedules on the real linear_extract; every-byte missing-marker cuts with an independent block walker",
+    text="Archives from the interleaving sweep and the complete program tree (<=3 files, <=6 ops) x 4 layer combos x subsets of names (all 8 without compression) x sink schedules (all / 1 / 3 bytes per call; single deviations incl. Interrupted at every sink call on rich archives): each sink must receive exactly what get_file returns on a fresh reader. Missing end marker: block stream cut at EVERY byte before the marker + valid footer (layers none and compress, compressed with the real layer writer): linear_extract may return Ok only if an independent walker also reaches a marker.",
+    note="Scaled constants; per-file reference validated against the model by C01.", ref="3/C12"),
+ "C13": dict(cat="model_checking", tech="deviation-bounded exploration of environment answers (controlled sink/source schedules), 0/1 (thorough 2) deviations at every call index plus every uniform transfer size",
+    text="Writer destination, normal-reader source and repair source (intact archive, 3/4 and 1/2 prefixes) are replaced by schedule-driven seams. After the default run records N calls: every uniform 'at most k bytes' schedule for k in 1..max request, every single deviation {1 byte, half, all-but-one, Interrupted} at every call index (thorough: pairs). Oracle: read-back of the collected bytes equals the model; listing/contents/hashes and repair status+files equal the in-memory result. Replays must observe the recorded call sizes (hard error otherwise).",
+    note="Scaled constants; call-size replay check not applied to multi-file sink runs (footer in HashMap order).", ref="3/C13"),
  "C14": dict(cat="fault_enumeration", tech="crash-point enumeration at flush boundaries over all programs of a bounded tree",
     text="Every program of a bounded family with a flush() inserted at every position (pairs in thorough) x 4 layer combos x levels {0,5,11} x 3 entropies is run on the real writer over a sink that records its length when flush returns; exactly those bytes are repaired (both modes when encrypted). Oracle: output sound and every file has at least the bytes appended before the flush (or, authenticated mode, at least what independent reference decoders extract from completed chunks).",
     note="Scaled constants; reference compressed stream for layers=both/authenticated comes from the compress-only run of the same program.", ref="3/C14"),
